@@ -42,3 +42,17 @@ Lemma prune_tests_shape :
        ("self.data.is_none()" :: "self.static_children.len() == 1"
         :: map (fun f => "self." ++ f ++ ".is_empty()") (tl seven_lists)) = true.
 Proof. vm_compute. repeat split; reflexivity. Qed.
+
+(* C08 / C10 / C09: the steps of Router::insert and Router::delete in the order the model takes them (Model/Router.v
+   rinsert: parse; unknown constraint over all expansions and their parts - return; find over all expansions collecting
+   conflicts; if any: sort, then dedup, return Conflict; insert every expansion (two textual sites: shared / single);
+   optimize; Ok.  rdelete: parse; find over all expansions - Mismatch returns; find over all expansions - NotFound
+   returns; delete over all expansions; NotFound if nothing came out, BEFORE optimize; optimize; Ok) *)
+Lemma router_steps_shape :
+  bl_eqb gen_insert_steps
+    ["parse"; "loop"; "loop"; "return"; "unknown-constraint"; "loop"; "find"; "push"; "if-conflicts"; "sort"; "dedup";
+     "return"; "conflict"; "loop"; "insert"; "insert"; "optimize"; "ok"] = true
+  /\ bl_eqb gen_delete_steps
+    ["parse"; "loop"; "find"; "continue"; "continue"; "return"; "mismatch"; "loop"; "find"; "return"; "not-found";
+     "loop"; "delete"; "return"; "not-found"; "optimize"; "ok"] = true.
+Proof. vm_compute. split; reflexivity. Qed.
